@@ -392,7 +392,7 @@ class GVN:
             return self.single(self.atom("real", f_key(v)))
         if name == "imag":
             return self.single(self.atom("imag", f_key(self._n(base))))
-        if name in ("shape", "size", "ndim", "dtype") and base.op not in ("sym", "global", "name"):
+        if name in ("shape", "size", "ndim", "dtype") and base.op not in ("global", "name"):
             # metadata of a computed array: a function of the (numbered) array, not of the way it is written
             return self.single(self.atom("meta", name, f_key(self._n(base))))
         return self.leaf(t)
